@@ -27,7 +27,7 @@ func init() {
 			"NOT decided: numerical agreement with the Prometheus engine (window selection, extrapolation, staleness, label sets), which quantifies over sample values.",
 		Assumptions: commonAssumptions,
 		Technique:   "static analysis: registry/table agreement from the typed AST (emitted names ⊆ registered names)",
-		Rules:       "C18.R1 R2 R3 R4 R5 R6",
+		Rules:       "C18.R1 R2 R3 R4 R5 R6 R7 R8",
 	}
 }
 
@@ -791,6 +791,8 @@ func c18(c *an.Ctx) {
 	c18kernelFlags(c)
 	c18operatorTables(c)
 	c18staleFilter(c)
+	c18sortedMatchKeys(c)
+	c18nanInMinMax(c)
 	mergeIdiom(c, "C18.R5", "grouping / matching keys of PromQL (by, without, on, ignoring) are built by merging the sorted label list with the sorted name list: the smaller side's cursor advances", map[string]int{
 		"engine/index/tsi:MakeGroupTagsKeyByWithoutDims":                    1,
 		"engine/index/tsi:MakeGroupTagsKeyByDims":                           1,
@@ -872,6 +874,60 @@ func c18staleFilter(c *an.Ctx) {
 		r.Fail(f.Name+": no marker test", c.P.Pos(f.Body.Pos()), "FilterRangeNANPoint no longer tests rows with IsStaleNaN inside a loop")
 	} else if full == 0 {
 		r.Fail(f.Name+": every marker loop left early", c.P.Pos(f.Body.Pos()), "each of the %d loop(s) that test IsStaleNaN is left by a break or return: no loop examines every row, so samples between two separated staleness markers are kept or dropped wholesale", loops)
+	}
+}
+
+// c18sortedMatchKeys — C18.R7.  computeMatchTags merges the match keys with the (sorted) tags of
+// a series (C18.R5); that is only right when the key list is sorted as a whole.  Every store to
+// the list in initMatchType is therefore followed by sort.Strings of that list on every way
+// out — a list "sorted, then __name__ prepended" is not sorted (upper-case letters and digits
+// sort before '_').
+func c18sortedMatchKeys(c *an.Ctx) {
+	const X = "engine/executor"
+	r := c.Rule("C18.R7", "K-ORDER(pairing)", X+":(*BinOpTransform).initMatchType — the match-key list handed to the sorted merge is sorted after its last modification")
+	f := fn(r, X+":BinOpTransform.initMatchType")
+	fld := obj(r, X+":BinOpTransform.MatchKeysForMatchCompute")
+	if f == nil || fld == nil {
+		return
+	}
+	stores := f.Find(an.MStore("MatchKeysForMatchCompute", fld, nil))
+	sorts := f.Find(an.MNode("sort.Strings(trans.MatchKeysForMatchCompute)", func(g *an.Fn, m ast.Node) bool {
+		ce, ok := m.(*ast.CallExpr)
+		if !ok || len(ce.Args) != 1 {
+			return false
+		}
+		cal := an.Callee(g.Info, ce)
+		if cal == nil || cal.Pkg() == nil || !(cal.Pkg().Path() == "sort" && (cal.Name() == "Strings" || cal.Name() == "Sort" || cal.Name() == "Stable") || cal.Pkg().Path() == "slices" && strings.HasPrefix(cal.Name(), "Sort")) {
+			return false
+		}
+		sel, ok := ast.Unparen(ce.Args[0]).(*ast.SelectorExpr)
+		return ok && g.Info.Uses[sel.Sel] == fld
+	}))
+	if stores.Len() == 0 {
+		r.Fail(f.Name+": no store", c.P.Pos(f.Body.Pos()), "initMatchType no longer sets MatchKeysForMatchCompute")
+		return
+	}
+	f.FollowedBy(r, stores, sorts, nil, "store to MatchKeysForMatchCompute ⇒ sort of that list on every way out")
+}
+
+// c18nanInMinMax — C18.R8.  min_over_time / max_over_time ignore NaN samples unless every sample
+// is NaN.  A window that straddles two record batches is combined by the merge functions; a
+// bare comparison keeps a NaN that sits on the side the comparison falls back to.  Both merge
+// functions test each operand for NaN and return the other one.
+func c18nanInMinMax(c *an.Ctx) {
+	r := c.Rule("C18.R8", "K-GUARD(siblings)", "engine: the merge functions of min_over_time / max_over_time return the other operand when one is NaN (both operands tested)")
+	for _, spec := range []string{"engine:floatPromMinMergeFunc", "engine:floatPromMaxMergeFunc"} {
+		f := fn(r, spec)
+		if f == nil {
+			continue
+		}
+		ret := func(p string) an.Matcher {
+			return an.MReturn("of "+p, func(g *an.Fn, rs *ast.ReturnStmt) bool {
+				return len(rs.Results) >= 1 && g.Canon(rs.Results[0]) == p
+			})
+		}
+		f.BranchReturns(r, an.AtomLike(`^math\.IsNaN\(p0\)$`, true), ret("p1"), "previous side NaN ⇒ the current side's value")
+		f.BranchReturns(r, an.AtomLike(`^math\.IsNaN\(p1\)$`, true), ret("p0"), "current side NaN ⇒ the previous side's value")
 	}
 }
 
